@@ -158,6 +158,9 @@ def extract_selected_variable_and_expression(symbolic_cls: Type, domain: Optiona
     elif domain and is_iterable(domain.domain) and not isinstance(domain.domain, SymbolicExpression):
         # a new `From`: the given one is left as it is, it may be handed to other variables (of other types) as well
         domain = From(filter(lambda v: isinstance(v, symbolic_cls), domain.domain))
+    elif domain and not is_iterable(domain.domain) and not isinstance(domain.domain, (SymbolicExpression, symbolic_cls)):
+        # a single object given as the domain is a domain of one member, filtered by type like any other: nothing is left
+        domain = From(filter(lambda v: isinstance(v, symbolic_cls), [domain.domain]))
 
     var = Variable(symbolic_cls.__name__, symbolic_cls, _domain_source_=domain, _predicate_type_=predicate_type,
                    _is_indexed_=index_class_cache(symbolic_cls))
